@@ -24,6 +24,8 @@ type Interp struct {
 	dv  []int // decision vector being replayed / extended
 	pos int
 	pc  []*Term        // asserted literals (not implied ones)
+	model   *Model     // a model of pc (nil if none cached)
+	pending []pendingAssert
 	known map[*Term]bool // base literal -> truth under pc
 
 	steps int
@@ -57,6 +59,11 @@ type Interp struct {
 	uuidSeq     int
 	sleeps      int
 	wg          map[*value]int
+}
+
+type pendingAssert struct {
+	label string
+	cond  *Term
 }
 
 type inputRec struct {
@@ -155,8 +162,28 @@ func (in *Interp) check(extra ...*Term) Result {
 	return r
 }
 
+// addLit appends a literal to the path condition, keeping the cached model only if it satisfies it.
+func (in *Interp) addLit(l *Term) {
+	in.pc = append(in.pc, l)
+	if in.model != nil {
+		if v, ok := in.model.EvalBool(l); !ok || !v {
+			in.model = nil
+		}
+	}
+}
+
+// fetchModel reads the solver's current model (after a sat answer).
+func (in *Interp) fetchModel() *Model {
+	terms := make([]*Term, len(in.inputs))
+	for i, r := range in.inputs {
+		terms[i] = r.term
+	}
+	return newModel(in.w.solver.Values(terms))
+}
+
 // decide resolves a symbolic condition on this path, forking when both
-// outcomes are feasible.
+// outcomes are feasible.  A cached model of the path condition witnesses one
+// side without a solver call.
 func (in *Interp) decide(t *Term) bool {
 	if t.IsConst() {
 		return t.IsTrue()
@@ -174,7 +201,7 @@ func (in *Interp) decide(t *Term) bool {
 			lit = in.ts.Not(t)
 		}
 		if d&forcedBit == 0 {
-			in.pc = append(in.pc, lit)
+			in.addLit(lit)
 		}
 		in.learn(t, b)
 		return b
@@ -182,14 +209,40 @@ func (in *Interp) decide(t *Term) bool {
 	// new decision point
 	var b bool
 	forced := false
-	if in.check(t) == RUnsat {
+	nt := in.ts.Not(t)
+	if mv, ok := in.model.EvalBool(t); ok {
+		// side mv is witnessed by the cached model
+		in.w.modelHits++
+		b = mv
+		other := nt
+		if !mv {
+			other = t
+		}
+		if in.check(other) == RUnsat {
+			forced = true
+		} else {
+			am := in.fetchModel()
+			od := 0
+			if !mv {
+				od = 1
+			}
+			alt := append(append([]int{}, in.dv[:in.pos]...), od)
+			in.w.ex.push(workItem{dv: alt, model: am})
+		}
+	} else if in.check(t) == RUnsat {
 		b, forced = false, true
-	} else if in.check(in.ts.Not(t)) == RUnsat {
-		b, forced = true, true
 	} else {
-		b = true
-		alt := append(append([]int{}, in.dv[:in.pos]...), 0)
-		in.w.ex.push(alt)
+		m1 := in.fetchModel()
+		if in.check(nt) == RUnsat {
+			b, forced = true, true
+			in.model = m1
+		} else {
+			m2 := in.fetchModel()
+			b = true
+			alt := append(append([]int{}, in.dv[:in.pos]...), 0)
+			in.w.ex.push(workItem{dv: alt, model: m2})
+			in.model = m1
+		}
 	}
 	d := 0
 	if b {
@@ -200,9 +253,9 @@ func (in *Interp) decide(t *Term) bool {
 	} else {
 		lit := t
 		if !b {
-			lit = in.ts.Not(t)
+			lit = nt
 		}
-		in.pc = append(in.pc, lit)
+		in.addLit(lit)
 	}
 	in.dv = append(in.dv, d)
 	in.pos++
@@ -223,7 +276,7 @@ func (in *Interp) choose(n int, what string) int {
 	}
 	for k := n - 1; k >= 1; k-- {
 		alt := append(append([]int{}, in.dv[:in.pos]...), k|forcedBit)
-		in.w.ex.push(alt)
+		in.w.ex.push(workItem{dv: alt, model: in.model})
 	}
 	in.dv = append(in.dv, 0|forcedBit)
 	in.pos++
@@ -234,16 +287,23 @@ func (in *Interp) assumeTerm(t *Term) {
 	if t.IsTrue() {
 		return
 	}
+	if t.IsFalse() {
+		panic(pathAbort{kind: "dead", msg: "assumption is false at " + in.whereAmI()})
+	}
 	if v, ok := in.litKnown(t); ok {
 		if v {
 			return
 		}
 		panic(pathAbort{kind: "dead", msg: "assumption contradicts path"})
 	}
-	if t.IsFalse() || in.check(t) == RUnsat {
+	if mv, ok := in.model.EvalBool(t); ok && mv {
+		// witnessed feasible
+	} else if in.check(t) == RUnsat {
 		panic(pathAbort{kind: "dead", msg: "assumption infeasible"})
+	} else {
+		in.model = in.fetchModel()
 	}
-	in.pc = append(in.pc, t)
+	in.addLit(t)
 	in.learn(t, true)
 }
 
@@ -273,18 +333,19 @@ func (in *Interp) modelValue(t *Term) (*big.Int, bool) {
 	return v, ok
 }
 
-// snapshotModel reads the values of all inputs after a sat query.
-func (in *Interp) snapshotModel() map[string]string {
-	terms := make([]*Term, len(in.inputs))
-	for i, r := range in.inputs {
-		terms[i] = r.term
-	}
-	m := in.w.solver.Values(terms)
+// snapshotModel renders the input values of a model.
+func (in *Interp) snapshotModel(m *Model) map[string]string {
 	out := map[string]string{}
-	// strings: render according to kind, keeping equal ints equal
 	for _, r := range in.inputs {
-		v, ok := m[r.term]
-		if !ok {
+		var v *big.Int
+		if m != nil {
+			x := m.vals[r.term.name]
+			if r.term.sort.K == SBV {
+				v = new(big.Int).SetUint64(uint64(x))
+			} else {
+				v = big.NewInt(x)
+			}
+		} else {
 			v = big.NewInt(0)
 		}
 		switch {
@@ -303,6 +364,10 @@ func (in *Interp) snapshotModel() map[string]string {
 	return out
 }
 
+// strKindBase: symbolic strings of these kinds range over a block of the Str
+// sort disjoint from every interned concrete string (which get small indices).
+var strKindBase = map[string]int64{"prefix4": 1 << 24, "prefix6": 2 << 24}
+
 func (in *Interp) renderStr(v *big.Int, kind string) string {
 	if v.IsInt64() {
 		i := v.Int64()
@@ -318,8 +383,10 @@ func (in *Interp) renderStr(v *big.Int, kind string) string {
 	}
 	switch kind {
 	case "str:prefix4":
+		k = v.Int64() - strKindBase["prefix4"]
 		return fmt.Sprintf("10.%d.%d.%d/32", (k>>16)&255, (k>>8)&255, k&255)
 	case "str:prefix6":
+		k = v.Int64() - strKindBase["prefix6"]
 		return fmt.Sprintf("2001:db8:%x:%x::/64", (k>>12)&0xfff, k&0xfff)
 	case "str:ni":
 		return fmt.Sprintf("NI-%d", k)
@@ -345,9 +412,9 @@ func (in *Interp) pcString() string {
 	return s
 }
 
-func (in *Interp) recordCex(label, kind, known, detail string) *cexRec {
+func (in *Interp) recordCex(m *Model, label, kind, known, detail string) *cexRec {
 	c := &cexRec{Label: label, Kind: kind, Known: known, Detail: detail,
-		Values: in.snapshotModel(), Choices: in.choiceList(), PC: in.pcString()}
+		Values: in.snapshotModel(m), Choices: in.choiceList(), PC: in.pcString()}
 	in.res.Cex = append(in.res.Cex, c)
 	return c
 }
@@ -361,41 +428,129 @@ func (in *Interp) choiceList() []int {
 }
 
 // assertTerm checks cond on this path; region (may be nil) is the region of an
-// open known finding attached to this assertion.
+// open known finding attached to this assertion.  Plain assertions are
+// deferred and discharged in one query per flush (before the next assumption
+// and at the end of the path); this is sound because every extension of the
+// current path is explored and flushed.
 func (in *Interp) assertTerm(cond *Term, label string, kfID string, region *Term) {
 	st := in.stat(label)
 	if v, ok := in.litKnown(cond); ok && v || cond.IsTrue() {
 		st.Discharged++
 		return
 	}
-	neg := in.ts.Not(cond)
 	open := kfID != "" && in.w.kfOpen[kfID]
-	if !open || region == nil {
-		if cond.IsFalse() || in.check(neg) == RSat {
-			if !cond.IsFalse() {
-				// model of pc ∧ ¬cond is current
-			} else {
-				in.check()
-			}
-			st.Violated++
-			in.recordCex(label, "assert", "", "")
-		} else {
-			st.Discharged++
-		}
-	} else {
-		// violation outside the known region?
+	if open && region != nil {
+		in.flush()
+		neg := in.ts.Not(cond)
 		if in.check(neg, in.ts.Not(region)) == RSat {
 			st.Violated++
-			in.recordCex(label, "assert", "", "outside known-finding region "+kfID)
+			in.recordCex(in.fetchModel(), label, "assert", "", "outside known-finding region "+kfID)
 		} else if in.check(neg, region) == RSat {
 			st.KnownHit++
-			in.recordCex(label, "assert", kfID, "")
+			in.recordCex(in.fetchModel(), label, "assert", kfID, "")
 		} else {
 			st.Discharged++
 		}
+		in.assumeTerm(cond)
+		return
 	}
-	// continue under the assertion
-	in.assumeTerm(cond)
+	if cond.IsFalse() {
+		m := in.model
+		if m == nil {
+			in.check()
+			m = in.fetchModel()
+		}
+		st.Violated++
+		in.recordCex(m, label, "assert", "", "")
+		panic(pathAbort{kind: "dead", msg: "assertion is false on every continuation: " + label})
+	}
+	if mv, ok := in.model.EvalBool(cond); ok && !mv {
+		// the cached model of the path condition falsifies the assertion
+		st.Violated++
+		in.recordCex(in.model, label, "assert", "", "")
+		in.assumeTerm(cond)
+		return
+	}
+	in.pending = append(in.pending, pendingAssert{label: label, cond: cond})
+}
+
+// flush discharges the deferred assertions.
+func (in *Interp) flush() {
+	for len(in.pending) > 0 {
+		var conds []*Term
+		var rest []pendingAssert
+		for _, p := range in.pending {
+			if v, ok := in.litKnown(p.cond); ok && v {
+				in.stat(p.label).Discharged++
+				continue
+			}
+			rest = append(rest, p)
+			conds = append(conds, p.cond)
+		}
+		in.pending = rest
+		if len(rest) == 0 {
+			return
+		}
+		conj := in.ts.And(conds...)
+		if in.check(in.ts.Not(conj)) == RUnsat {
+			for _, p := range rest {
+				in.stat(p.label).Discharged++
+				in.learn(p.cond, true)
+			}
+			in.pending = nil
+			return
+		}
+		m := in.fetchModel()
+		var keep []pendingAssert
+		var bad []pendingAssert
+		for _, p := range rest {
+			if v, ok := m.EvalBool(p.cond); ok && !v {
+				bad = append(bad, p)
+			} else {
+				keep = append(keep, p)
+			}
+		}
+		if len(bad) == 0 {
+			// evaluation failed to attribute: fall back to individual queries
+			for _, p := range rest {
+				if in.check(in.ts.Not(p.cond)) == RSat {
+					in.stat(p.label).Violated++
+					in.recordCex(in.fetchModel(), p.label, "assert", "", "")
+				} else {
+					in.stat(p.label).Discharged++
+					in.learn(p.cond, true)
+				}
+			}
+			in.pending = nil
+			for _, p := range rest {
+				in.assumeTermQuiet(p.cond)
+			}
+			return
+		}
+		for _, p := range bad {
+			in.stat(p.label).Violated++
+			in.recordCex(m, p.label, "assert", "", "")
+		}
+		in.pending = keep
+		for _, p := range bad {
+			in.assumeTermQuiet(p.cond)
+		}
+	}
+}
+
+// assumeTermQuiet continues under an assertion that was reported violated; if no
+// continuation satisfies it the path ends.
+func (in *Interp) assumeTermQuiet(t *Term) {
+	if v, ok := in.litKnown(t); ok && v {
+		return
+	}
+	if in.check(t) == RUnsat {
+		in.pending = nil
+		panic(pathAbort{kind: "dead", msg: "no continuation satisfies a violated assertion"})
+	}
+	in.model = in.fetchModel()
+	in.addLit(t)
+	in.learn(t, true)
 }
 
 func sortedKeys[V any](m map[string]V) []string {
@@ -430,3 +585,7 @@ func (in *Interp) global(g *ssa.Global) *value {
 }
 
 var _ = types.Typ
+
+func (in *Interp) whereAmI() string {
+	return ""
+}
